@@ -85,7 +85,7 @@ Qed.
 Lemma split_ws_aux_trailing : forall s cur, split_ws_aux (s +++ SP) cur = split_ws_aux s cur.
 Proof.
   induction s as [|c s IH]; intros cur.
-  - unfold SP. cbn [String.append split_ws_aux]. change (is_ws " "%char) with true. cbv iota.
+  - cbn [String.append split_ws_aux]. change (is_ws " "%char) with true. cbv iota.
     destruct cur; reflexivity.
   - cbn [String.append split_ws_aux]. destruct (is_ws c); [destruct cur|]; now rewrite IH.
 Qed.
@@ -173,4 +173,1031 @@ Lemma pref_string_total : forall l t, length t = length l -> exists p, pref_stri
 Proof.
   intros l t H. destruct (write_from_ok l t false H) as [ts [E _]].
   unfold pref_string, write_strings, write. rewrite E. cbn [bind]. eexists. reflexivity.
+Qed.
+
+(* ---- sections of the generated text ------------------------------------ *)
+
+Definition zipruns (ls : list (list Z)) (ts : list (list bool)) : list plist :=
+  map (fun lt => runs (fst lt) (snd lt)) (combine ls ts).
+
+(* [s] is a block of newline-terminated lines whose tokens are those of the token lines [toks] *)
+Definition gen_ok (s : string) (toks : list (list string)) : Prop :=
+  exists L, s = concat_str (map addnl L) /\ Forall no_nl L /\ Forall2 tokeq L (map (join SP) toks).
+
+Lemma gen_ok_nil : gen_ok ""%string [].
+Proof. exists []. split; [reflexivity|]. split; constructor. Qed.
+
+Lemma gen_ok_cons : forall line rest tk tks s,
+  tokeq line (join SP tk) /\ no_nl line -> gen_ok rest tks -> s = line +++ NLs +++ rest -> gen_ok s (tk :: tks).
+Proof.
+  intros line rest tk tks s [H1 H2] (L & -> & HL & HT) ->. exists (line :: L). split; [|split].
+  - cbn [map concat_str fold_right]. fold (concat_str (map addnl L)).
+    change (addnl line) with (line +++ NLs). now rewrite append_assoc.
+  - now constructor.
+  - cbn [map]. now constructor.
+Qed.
+
+Lemma gen_ok_app : forall s1 t1 s2 t2, gen_ok s1 t1 -> gen_ok s2 t2 -> gen_ok (s1 +++ s2) (t1 ++ t2).
+Proof.
+  intros s1 t1 s2 t2 (L1 & -> & N1 & T1) (L2 & -> & N2 & T2). exists (L1 ++ L2). split; [|split].
+  - now rewrite map_app, concat_str_app.
+  - now apply Forall_app_intro.
+  - rewrite map_app. now apply Forall2_app.
+Qed.
+
+Lemma student_line : forall i l,
+  tokeq (sZ i +++ ": " +++ join SP (plist_tokens l)) (join SP (student_toks i l)) /\
+  no_nl (sZ i +++ ": " +++ join SP (plist_tokens l)).
+Proof.
+  intros i l.
+  replace (sZ i +++ ": " +++ join SP (plist_tokens l))
+    with (join SP [label i] +++ SP +++ join SP (plist_tokens l))
+    by (cbn [join]; unfold label, sZ; rewrite append_assoc; reflexivity).
+  apply (labelled_line [label i] (plist_tokens l)); [discriminate| |apply plist_tokens_good].
+  constructor; [apply label_good|constructor].
+Qed.
+
+Lemma hospital_line : forall i a b x l,
+  tokeq (sZ i +++ ": " +++ sZ a +++ ": " +++ sZ b +++ ": " +++ join SP (plist_tokens l))
+        (join SP (hospital_toks i (a, b, x, l))) /\
+  no_nl (sZ i +++ ": " +++ sZ a +++ ": " +++ sZ b +++ ": " +++ join SP (plist_tokens l)).
+Proof.
+  intros i a b x l.
+  replace (sZ i +++ ": " +++ sZ a +++ ": " +++ sZ b +++ ": " +++ join SP (plist_tokens l))
+    with (join SP [label i; label a; label b] +++ SP +++ join SP (plist_tokens l))
+    by (cbn [join]; unfold label, sZ; rewrite !append_assoc; reflexivity).
+  apply (labelled_line [label i; label a; label b] (plist_tokens l)); [discriminate| |apply plist_tokens_good].
+  repeat (constructor; [apply label_good|]). constructor.
+Qed.
+
+Lemma lecturer_line : forall i a b c l,
+  tokeq (sZ i +++ ": " +++ sZ a +++ ": " +++ sZ b +++ ": " +++ sZ c +++ ": " +++ join SP (plist_tokens l))
+        (join SP (lecturer_toks i (a, b, c, l))) /\
+  no_nl (sZ i +++ ": " +++ sZ a +++ ": " +++ sZ b +++ ": " +++ sZ c +++ ": " +++ join SP (plist_tokens l)).
+Proof.
+  intros i a b c l.
+  replace (sZ i +++ ": " +++ sZ a +++ ": " +++ sZ b +++ ": " +++ sZ c +++ ": " +++ join SP (plist_tokens l))
+    with (join SP [label i; label a; label b; label c] +++ SP +++ join SP (plist_tokens l))
+    by (cbn [join]; unfold label, sZ; rewrite !append_assoc; reflexivity).
+  apply (labelled_line [label i; label a; label b; label c] (plist_tokens l));
+    [discriminate| |apply plist_tokens_good].
+  repeat (constructor; [apply label_good|]). constructor.
+Qed.
+
+Lemma project_line : forall i a b c,
+  tokeq (sZ i +++ ": " +++ sZ a +++ ": " +++ sZ b +++ ": " +++ sZ c) (join SP (project_toks i (a, b, c))) /\
+  no_nl (sZ i +++ ": " +++ sZ a +++ ": " +++ sZ b +++ ": " +++ sZ c).
+Proof.
+  intros i a b c.
+  replace (sZ i +++ ": " +++ sZ a +++ ": " +++ sZ b +++ ": " +++ sZ c)
+    with (join SP (project_toks i (a, b, c)))
+    by (unfold project_toks; cbn [join fst snd]; unfold label, sZ; rewrite !append_assoc; reflexivity).
+  split; [reflexivity|]. apply join_no_nl. unfold project_toks.
+  repeat (constructor; [apply label_good|]). constructor; [apply str_of_Z_good|constructor].
+Qed.
+
+Lemma first_lines_gen : forall n i ls ts s, length ls = n -> length ts = n ->
+  first_lines i ls ts n = Ok s -> gen_ok s (numbered student_toks i (zipruns ls ts)).
+Proof.
+  induction n as [|n IH]; intros i ls ts s Hl Ht H.
+  - destruct ls; [|discriminate]. cbn [first_lines] in H. injection H as <-. apply gen_ok_nil.
+  - destruct ls as [|l ls]; [discriminate|]. destruct ts as [|t ts]; [discriminate|].
+    cbn [length] in Hl, Ht. injection Hl as Hl. injection Ht as Ht.
+    cbn [first_lines] in H. destruct (pref_string l t) as [p|] eqn:Ep; [|discriminate]. cbn [bind] in H.
+    destruct (first_lines (i + 1) ls ts n) as [rest|] eqn:Er; [|discriminate]. cbn [bind] in H.
+    injection H as <-. apply pref_string_runs in Ep. subst p.
+    unfold zipruns. cbn [combine map fst snd numbered]. fold (zipruns ls ts).
+    eapply gen_ok_cons; [apply student_line|exact (IH _ _ _ _ Hl Ht Er)|].
+    now rewrite !append_assoc.
+Qed.
+
+Lemma hosp_lines_gen2 : forall n i ls ts lq uq xs s,
+  length ls = n -> length ts = n -> length lq = n -> length uq = n -> length xs = n ->
+  hosp_lines i true ls ts lq uq n = Ok s ->
+  gen_ok s (numbered hospital_toks i (combine (combine (combine lq uq) xs) (zipruns ls ts))).
+Proof.
+  induction n as [|n IH]; intros i ls ts lq uq xs s Hl Ht Hq Hu Hx H.
+  - destruct ls; [|discriminate]. destruct lq; [|discriminate].
+    cbn [hosp_lines] in H. injection H as <-. apply gen_ok_nil.
+  - destruct ls as [|l ls]; [discriminate|]. destruct ts as [|t ts]; [discriminate|].
+    destruct lq as [|a lq]; [discriminate|]. destruct uq as [|b uq]; [discriminate|].
+    destruct xs as [|x xs]; [discriminate|].
+    cbn [length] in Hl, Ht, Hq, Hu, Hx. injection Hl as Hl. injection Ht as Ht.
+    injection Hq as Hq. injection Hu as Hu. injection Hx as Hx.
+    cbn [hosp_lines tl] in H. destruct (pref_string l t) as [p|] eqn:Ep; [|discriminate]. cbn [bind] in H.
+    destruct (hosp_lines (i + 1) true ls ts lq uq n) as [rest|] eqn:Er; [|discriminate]. cbn [bind] in H.
+    injection H as <-. apply pref_string_runs in Ep. subst p.
+    unfold zipruns. cbn [combine map fst snd numbered]. fold (zipruns ls ts).
+    eapply gen_ok_cons; [apply (hospital_line i a b x)|exact (IH _ _ _ _ _ xs _ Hl Ht Hq Hu Hx Er)|].
+    now rewrite !append_assoc.
+Qed.
+
+Lemma hosp_lines_gen1 : forall n i ls ts lq uq xs s,
+  length lq = n -> length uq = n -> length xs = n ->
+  hosp_lines i false ls ts lq uq n = Ok s ->
+  gen_ok s (numbered hospital_toks i (combine (combine (combine lq uq) xs) (repeat [] n))).
+Proof.
+  induction n as [|n IH]; intros i ls ts lq uq xs s Hq Hu Hx H.
+  - destruct lq; [|discriminate]. cbn [hosp_lines] in H. injection H as <-. apply gen_ok_nil.
+  - destruct lq as [|a lq]; [discriminate|]. destruct uq as [|b uq]; [discriminate|].
+    destruct xs as [|x xs]; [discriminate|].
+    cbn [length] in Hq, Hu, Hx. injection Hq as Hq. injection Hu as Hu. injection Hx as Hx.
+    cbn [hosp_lines bind] in H.
+    destruct (hosp_lines (i + 1) false (tl ls) (tl ts) lq uq n) as [rest|] eqn:Er; [|discriminate].
+    cbn [bind] in H. injection H as <-.
+    cbn [combine repeat numbered].
+    eapply gen_ok_cons; [apply (hospital_line i a b x [])|exact (IH _ _ _ _ _ xs _ Hq Hu Hx Er)|].
+    cbn [plist_tokens flat_map join]. now rewrite !append_assoc.
+Qed.
+
+Lemma proj_lines_gen : forall n i lq uq plec s,
+  length lq = n -> length uq = n -> length plec = n ->
+  proj_lines i lq uq plec n = Ok s ->
+  gen_ok s (numbered project_toks i (combine (combine lq uq) plec)).
+Proof.
+  induction n as [|n IH]; intros i lq uq plec s Hq Hu Hx H.
+  - destruct lq; [|discriminate]. cbn [proj_lines] in H. injection H as <-. apply gen_ok_nil.
+  - destruct lq as [|a lq]; [discriminate|]. destruct uq as [|b uq]; [discriminate|].
+    destruct plec as [|x xs]; [discriminate|].
+    cbn [length] in Hq, Hu, Hx. injection Hq as Hq. injection Hu as Hu. injection Hx as Hx.
+    cbn [proj_lines] in H.
+    destruct (proj_lines (i + 1) lq uq xs n) as [rest|] eqn:Er; [|discriminate].
+    cbn [bind] in H. injection H as <-.
+    cbn [combine numbered].
+    eapply gen_ok_cons; [apply (project_line i a b x)|exact (IH _ _ _ _ _ Hq Hu Hx Er)|].
+    now rewrite !append_assoc.
+Qed.
+
+Lemma lec_lines_gen2 : forall n i ls ts lq tg uq s,
+  length ls = n -> length ts = n -> length lq = n -> length tg = n -> length uq = n ->
+  lec_lines i true ls ts lq tg uq n = Ok s ->
+  gen_ok s (numbered lecturer_toks i (combine (combine (combine lq tg) uq) (zipruns ls ts))).
+Proof.
+  induction n as [|n IH]; intros i ls ts lq tg uq s Hl Ht Hq Hg Hu H.
+  - destruct ls; [|discriminate]. destruct lq; [|discriminate].
+    cbn [lec_lines] in H. injection H as <-. apply gen_ok_nil.
+  - destruct ls as [|l ls]; [discriminate|]. destruct ts as [|t ts]; [discriminate|].
+    destruct lq as [|a lq]; [discriminate|]. destruct tg as [|b tg]; [discriminate|].
+    destruct uq as [|c uq]; [discriminate|].
+    cbn [length] in Hl, Ht, Hq, Hu, Hg. injection Hl as Hl. injection Ht as Ht.
+    injection Hq as Hq. injection Hu as Hu. injection Hg as Hg.
+    cbn [lec_lines tl] in H. destruct (pref_string l t) as [p|] eqn:Ep; [|discriminate]. cbn [bind] in H.
+    destruct (lec_lines (i + 1) true ls ts lq tg uq n) as [rest|] eqn:Er; [|discriminate]. cbn [bind] in H.
+    injection H as <-. apply pref_string_runs in Ep. subst p.
+    unfold zipruns. cbn [combine map fst snd numbered]. fold (zipruns ls ts).
+    eapply gen_ok_cons; [apply (lecturer_line i a b c)|exact (IH _ _ _ _ _ _ _ Hl Ht Hq Hg Hu Er)|].
+    now rewrite !append_assoc.
+Qed.
+
+Lemma lec_lines_gen1 : forall n i ls ts lq tg uq s,
+  length lq = n -> length tg = n -> length uq = n ->
+  lec_lines i false ls ts lq tg uq n = Ok s ->
+  gen_ok s (numbered lecturer_toks i (combine (combine (combine lq tg) uq) (repeat [] n))).
+Proof.
+  induction n as [|n IH]; intros i ls ts lq tg uq s Hq Hg Hu H.
+  - destruct lq; [|discriminate]. cbn [lec_lines] in H. injection H as <-. apply gen_ok_nil.
+  - destruct lq as [|a lq]; [discriminate|]. destruct tg as [|b tg]; [discriminate|].
+    destruct uq as [|c uq]; [discriminate|].
+    cbn [length] in Hq, Hu, Hg. injection Hq as Hq. injection Hu as Hu. injection Hg as Hg.
+    cbn [lec_lines bind] in H.
+    destruct (lec_lines (i + 1) false (tl ls) (tl ts) lq tg uq n) as [rest|] eqn:Er; [|discriminate].
+    cbn [bind] in H. injection H as <-.
+    cbn [combine repeat numbered].
+    eapply gen_ok_cons; [apply (lecturer_line i a b c [])|exact (IH _ _ _ _ _ _ _ Hq Hg Hu Er)|].
+    cbn [plist_tokens flat_map join]. now rewrite !append_assoc.
+Qed.
+
+(* a text made of a header line, a block read like the remaining token lines of [A], and anything else *)
+Lemma text_import : forall na tw A h T body rest,
+  wf_ast na tw A = true -> ast_lines na A = h :: T -> gen_ok body T ->
+  import_model (join SP h +++ NLs +++ body +++ rest) na tw = Ok (denote na tw A).
+Proof.
+  intros na tw A h T body rest W EA (L & -> & NL & TL).
+  pose proof (ast_lines_no_nl na A) as NA. rewrite EA in NA. cbn [map] in NA.
+  inversion NA as [|? ? Nh _]; subst.
+  unfold import_model.
+  assert (E : lines (join SP h +++ NLs +++ concat_str (map addnl L) +++ rest) =
+              (join SP h :: L) ++ lines_aux rest EmptyString).
+  { unfold lines. rewrite <- lines_aux_render by (constructor; assumption).
+    f_equal. cbn [map concat_str fold_right]. fold (concat_str (map addnl L)).
+    change (addnl (join SP h)) with (join SP h +++ NLs). now rewrite !append_assoc. }
+  rewrite E. cbn [app].
+  rewrite (import_lines_tokeq na tw (join SP h) (L ++ lines_aux rest EmptyString)
+             (map (join SP) T ++ lines_aux rest EmptyString)).
+  - change (join SP h :: map (join SP) T ++ lines_aux rest EmptyString)
+      with (map (join SP) (h :: T) ++ lines_aux rest EmptyString).
+    rewrite <- EA. apply import_lines_ast; [assumption|]. apply lines_aux_no_nl. reflexivity.
+  - apply Forall2_app; [assumption|]. apply Forall2_refl. reflexivity.
+Qed.
+
+(* ====================================================================== *)
+(* C. the instance denoted by a well-formed file is well-formed            *)
+(* ====================================================================== *)
+
+Lemma map_fst_ranked_from : forall l r, map fst (ranked_from r l) = concat l.
+Proof.
+  induction l as [|g l IH]; intros r; [reflexivity|].
+  cbn [ranked_from concat]. rewrite map_app, map_map, IH. cbn [fst]. now rewrite map_id.
+Qed.
+
+Lemma ranked_from_bounds : forall l r0 x r, In (x, r) (ranked_from r0 l) -> r0 <= r < r0 + zlen l.
+Proof.
+  induction l as [|g l IH]; intros r0 x r H; [destruct H|].
+  cbn [ranked_from] in H. rewrite zlen_cons. pose proof (zlen_nonneg l).
+  apply in_app_or in H as [H|H].
+  - apply in_map_iff in H as [y [E _]]. injection E as _ <-. lia.
+  - apply IH in H. lia.
+Qed.
+
+Lemma plist_ok_length : forall l, plist_ok l -> (length l <= length (concat l))%nat.
+Proof.
+  induction l as [|g l IH]; intros H; [cbn; lia|].
+  inversion H as [|? ? Hg Hl]; subst. cbn [concat length]. rewrite app_length.
+  specialize (IH Hl). destruct g; [now elim Hg|cbn [length]; lia].
+Qed.
+
+Lemma dense_from_same : forall g r rest,
+  dense_from r (map snd (map (fun x : Z => (x, r)) g) ++ rest) = dense_from r rest.
+Proof.
+  induction g as [|x g IH]; intros r rest; [reflexivity|].
+  cbn [map snd app dense_from]. rewrite Z.eqb_refl. cbn [orb andb]. apply IH.
+Qed.
+
+Lemma dense_from_ranked : forall l r r0, plist_ok l -> (r = r0 \/ r = r0 + 1) ->
+  dense_from r0 (map snd (ranked_from r l)) = true.
+Proof.
+  induction l as [|g l IH]; intros r r0 H Hr; [reflexivity|].
+  inversion H as [|? ? Hg Hl]; subst. destruct g as [|x g]; [now elim Hg|].
+  cbn [ranked_from map app snd]. rewrite map_app. cbn [dense_from].
+  assert (E : (r =? r0) || (r =? r0 + 1) = true).
+  { apply orb_true_iff. destruct Hr; [left|right]; now apply Z.eqb_eq. }
+  rewrite E. cbn [andb]. rewrite dense_from_same. apply IH; [assumption|right; reflexivity].
+Qed.
+
+Lemma dense_ranks_ranked : forall l, plist_ok l -> dense_ranks (map snd (ranked l)) = true.
+Proof.
+  intros l H. unfold ranked. destruct l as [|g l]; [reflexivity|].
+  inversion H as [|? ? Hg Hl]; subst. destruct g as [|x g]; [now elim Hg|].
+  cbn [ranked_from map app snd]. rewrite map_app. cbn [dense_ranks]. rewrite Z.eqb_refl. cbn [andb].
+  rewrite dense_from_same. apply dense_from_ranked; [assumption|right; reflexivity].
+Qed.
+
+Lemma lec_rank_some : forall na A k s r, lec_rank na A k s = Some r ->
+  exists x, In (x, r) (ranked (second_list_of na A k)).
+Proof.
+  intros na A k s r H. unfold lec_rank in H.
+  destruct (find (fun xr : Z * Z => fst xr =? s) (rev (ranked (second_list_of na A k)))) as [[x r']|] eqn:E;
+    [|discriminate].
+  cbn [snd] in H. injection H as <-. apply find_some in E as [E _]. apply in_rev in E. now exists x.
+Qed.
+
+Lemma lec_rank_in : forall na A k s, In s (concat (second_list_of na A k)) -> lec_rank na A k s <> None.
+Proof.
+  intros na A k s H. rewrite <- (map_fst_ranked_from _ 1) in H.
+  apply in_map_iff in H as [[s' r] [E Hin]]. cbn [fst] in E. subst s'.
+  unfold lec_rank.
+  destruct (find (fun xr : Z * Z => fst xr =? s) (rev (ranked (second_list_of na A k)))) eqn:F; [discriminate|].
+  pose proof (find_none _ _ F (s, r)) as N. cbn [fst] in N. rewrite Z.eqb_refl in N.
+  assert (X : true = false) by (apply N; rewrite <- in_rev; exact Hin). discriminate X.
+Qed.
+
+Lemma in_denote_rows : forall na tw A ls i q, In q (concat (denote_rows na tw A i ls)) ->
+  exists j l p r, In (j, l) (combine (seqZ i (length ls)) ls) /\ In (p, r) (ranked l) /\
+    q = mkPair j p r (lec_of na A p) (if tw then lec_rank na A (lec_of na A p) j else None).
+Proof.
+  induction ls as [|l ls IH]; intros i q H; [destruct H|].
+  cbn [denote_rows concat] in H. apply in_app_or in H as [H|H].
+  - unfold denote_row in H. apply in_map_iff in H as [[p r] [<- Hin]].
+    exists i, l, p, r. split; [now left|]. split; [assumption|reflexivity].
+  - destruct (IH _ _ H) as (j & l' & p & r & H1 & H2 & H3).
+    exists j, l', p, r. split; [cbn [length seqZ combine]; now right|]. now split.
+Qed.
+
+Lemma length_denote_rows : forall na tw A ls i, length (denote_rows na tw A i ls) = length ls.
+Proof. induction ls as [|l ls IH]; intros i; cbn [denote_rows length]; [reflexivity|now rewrite IH]. Qed.
+
+Lemma rows_ok_denote : forall na tw A I ls i,
+  nP I = f_n2 A -> (forall p, 1 <= p <= f_n2 A -> nth1 (p_lec I) p 0 = lec_of na A p) ->
+  Forall (Rng A) ls -> Forall plist_ok ls -> (forall l, In l ls -> nodupZ (concat l) = true) ->
+  rows_ok I i (denote_rows na tw A i ls) = true.
+Proof.
+  intros na tw A I. induction ls as [|l ls IH]; intros i HP HL HR HO HN; [reflexivity|].
+  inversion HR as [|? ? Rl Rls]; subst. inversion HO as [|? ? Ol Ols]; subst.
+  cbn [denote_rows rows_ok]. apply andb_true_iff. split.
+  - unfold row_ok. apply andb_true_iff. split; [apply andb_true_iff; split|].
+    + apply forallb_forall. intros q Hq. unfold denote_row in Hq.
+      apply in_map_iff in Hq as [[p r] [<- Hin]]. cbn [st pr lec fst snd].
+      destruct (in_ranked_from _ _ _ _ Hin) as [g [Hg Hp]]. pose proof (Rl g p Hg Hp) as Hr.
+      rewrite Z.eqb_refl, HP, (HL p Hr), Z.eqb_refl. cbn [andb].
+      apply andb_true_iff. split; [apply andb_true_iff; split|reflexivity]; apply Z.leb_le; lia.
+    + unfold denote_row. rewrite map_map. cbn [pr].
+      change (map (fun x : Z * Z => fst x) (ranked l)) with (map fst (ranked l)).
+      unfold ranked. rewrite map_fst_ranked_from. apply HN. now left.
+    + unfold denote_row. rewrite map_map. cbn [rs].
+      change (map (fun x : Z * Z => snd x) (ranked l)) with (map snd (ranked l)).
+      now apply dense_ranks_ranked.
+  - apply IH; try assumption. intros l' Hl'. apply HN. now right.
+Qed.
+
+Lemma option_eqb_refl : forall o : option Z, option_eqb Z.eqb o o = true.
+Proof. intros [z|]; cbn [option_eqb]; [apply Z.eqb_refl|reflexivity]. Qed.
+
+Lemma all2Z_map {X} : forall (R : Z -> Z -> bool) (f g : X -> Z) (l : list X),
+  (forall x, In x l -> R (f x) (g x) = true) -> all2Z R (map f l) (map g l) = true.
+Proof.
+  induction l as [|x l IH]; intros H; [reflexivity|].
+  cbn [map all2Z]. rewrite H by (now left). cbn [andb]. apply IH. intros y Hy. apply H. now right.
+Qed.
+
+Lemma second_list_of_ok : forall na tw A k, wf_ast na tw A = true -> plist_ok (second_list_of na A k).
+Proof.
+  intros na tw A k W.
+  destruct (wf_ast_facts _ _ _ W) as (_ & _ & _ & _ & _ & _ & _ & _ & _ & O2 & O3 & _).
+  unfold second_list_of. destruct (na =? 3).
+  - destruct (nth_in_or_default (Z.to_nat (k - 1)) (f_third A) (0, 0, 0, [])) as [H|H].
+    + rewrite Forall_forall in O3. apply (O3 _ H).
+    + rewrite H. constructor.
+  - destruct (nth_in_or_default (Z.to_nat (k - 1)) (f_second_lists A) []) as [H|H].
+    + rewrite Forall_forall in O2. apply (O2 _ H).
+    + rewrite H. constructor.
+Qed.
+
+Lemma denote_pairs : forall na tw A, pairs (denote na tw A) = denote_rows na tw A 1 (f_first A).
+Proof. intros. unfold denote. destruct (na =? 3); reflexivity. Qed.
+Lemma denote_nS : forall na tw A, nS (denote na tw A) = f_n1 A.
+Proof. intros. unfold denote. destruct (na =? 3); reflexivity. Qed.
+Lemma denote_nP : forall na tw A, nP (denote na tw A) = f_n2 A.
+Proof. intros. unfold denote. destruct (na =? 3); reflexivity. Qed.
+
+Lemma denote_sided : forall na tw A, wf_ast na tw A = true ->
+  (tw = true -> two_sided (denote na tw A) = true) /\ (tw = false -> one_sided (denote na tw A) = true).
+Proof.
+  intros na tw A W.
+  destruct (wf_ast_facts _ _ _ W) as (_ & _ & _ & _ & _ & _ & _ & _ & _ & _ & _ & _ & _ & T).
+  split; intros ->.
+  - unfold two_sided, all_pairs. rewrite denote_pairs. apply forallb_forall. intros q Hq.
+    destruct (in_denote_rows _ _ _ _ _ _ Hq) as (j & l & p & r & H1 & H2 & ->). cbn [rl].
+    destruct (in_ranked_from _ _ _ _ H2) as [g [Hg Hp]].
+    pose proof (T eq_refl (j, l) H1 g p Hg Hp) as N. cbn [fst] in N.
+    destruct (lec_rank na A (lec_of na A p) j); [reflexivity|now elim N].
+  - unfold one_sided, all_pairs. rewrite denote_pairs. apply forallb_forall. intros q Hq.
+    destruct (in_denote_rows _ _ _ _ _ _ Hq) as (j & l & p & r & H1 & H2 & ->). reflexivity.
+Qed.
+
+Lemma denote_lec_ranks : forall na tw A, wf_ast na tw A = true ->
+  (forall k, zlen (concat (second_list_of na A k)) <= f_n1 A) ->
+  forall k, lec_ranks_ok (denote na tw A) k = true.
+Proof.
+  intros na tw A W Hsec k. set (M := denote na tw A). unfold lec_ranks_ok. cbv zeta.
+  assert (P : forall q, In q (lecturer_list M k) ->
+              rl q = if tw then lec_rank na A (lec q) (st q) else None).
+  { intros q Hq. unfold lecturer_list in Hq. apply filter_In in Hq as [Hq _].
+    unfold all_pairs, M in Hq. rewrite denote_pairs in Hq.
+    destruct (in_denote_rows _ _ _ _ _ _ Hq) as (j & l & p & r & _ & _ & ->). reflexivity. }
+  assert (K : forall q, In q (lecturer_list M k) -> lec q = k).
+  { intros q Hq. unfold lecturer_list in Hq. apply filter_In in Hq as [_ Hq]. now apply Z.eqb_eq in Hq. }
+  apply andb_true_iff. split.
+  - apply forallb_forall. intros a Ha. apply forallb_forall. intros b Hb.
+    destruct (st a =? st b) eqn:E; [|reflexivity]. cbn [negb orb]. apply Z.eqb_eq in E.
+    rewrite (P a Ha), (P b Hb), (K a Ha), (K b Hb), E. apply option_eqb_refl.
+  - apply forallb_forall. intros a Ha. destruct (rl a) as [r|] eqn:E; [|reflexivity].
+    rewrite (P a Ha) in E. destruct tw; [|discriminate].
+    destruct (lec_rank_some _ _ _ _ _ E) as [x Hx]. unfold ranked in Hx.
+    apply ranked_from_bounds in Hx.
+    pose proof (plist_ok_length _ (second_list_of_ok na true A (lec a) W)) as L.
+    pose proof (Hsec (lec a)) as S. unfold zlen in *. unfold M. rewrite denote_nS.
+    apply andb_true_iff. split; apply Z.leb_le; lia.
+Qed.
+
+Lemma denote_rows_ok : forall na tw A, wf_ast na tw A = true ->
+  (forall l, In l (f_first A) -> nodupZ (concat l) = true) ->
+  (forall p, 1 <= p <= f_n2 A -> nth1 (p_lec (denote na tw A)) p 0 = lec_of na A p) ->
+  rows_ok (denote na tw A) 1 (pairs (denote na tw A)) = true.
+Proof.
+  intros na tw A W Hnodup HL.
+  destruct (wf_ast_facts _ _ _ W) as (_ & _ & _ & _ & _ & _ & _ & _ & O1 & _ & _ & R & _).
+  rewrite denote_pairs. apply rows_ok_denote; try assumption. apply denote_nP.
+Qed.
+
+Lemma nth1_pos : forall l p d, 1 <= p -> nth1 l p d = nth (Z.to_nat (p - 1)) l d.
+Proof. intros l p d H. unfold nth1. destruct (Z.leb_spec p 0); [lia|reflexivity]. Qed.
+
+Theorem denote_wf : forall na tw A,
+  wf_ast na tw A = true ->
+  1 <= f_n1 A -> 1 <= f_n2 A -> (na = 3 -> 1 <= f_n3 A) ->
+  (forall q, In q (f_second A) -> 0 <= fst (fst q) <= snd (fst q)) ->
+  (forall q, In q (f_third A) -> 0 <= fst (fst (fst q)) <= snd (fst (fst q)) /\ snd (fst (fst q)) <= snd (fst q)) ->
+  (forall l, In l (f_first A) -> nodupZ (concat l) = true) ->
+  (forall k, zlen (concat (second_list_of na A k)) <= f_n1 A) ->
+  wf (denote na tw A) = true.
+Proof.
+  intros na tw A W H1 H2 H3 HQ HT HN HS.
+  destruct (wf_ast_facts _ _ _ W) as
+    (Hna & L1 & L2 & L3 & L4 & N1 & N2 & N3 & O1 & O2 & O3 & R & LR & T).
+  pose proof (denote_lec_ranks na tw A W HS) as LRK.
+  pose proof (denote_sided na tw A W) as [S2 S1].
+  pose proof (denote_rows_ok na tw A W HN) as RO.
+  assert (SD : two_sided (denote na tw A) || one_sided (denote na tw A) = true).
+  { destruct tw; [rewrite S2|rewrite S1]; try reflexivity. apply orb_true_r. }
+  assert (LK : forallb (lec_ranks_ok (denote na tw A)) (seqZ 1 (Z.to_nat (nL (denote na tw A)))) = true).
+  { apply forallb_forall. intros k _. apply LRK. }
+  unfold wf. rewrite SD, LK, RO; clear SD LK RO LRK S1 S2.
+  - unfold denote. destruct Hna as [-> | ->].
+    + change (2 =? 3) with false. cbv iota zeta.
+      cbn [nS nP nL p_lq p_uq p_lec l_lq l_tg l_uq pairs].
+      unfold zlen in *. rewrite !map_length, length_denote_rows, length_seqZ.
+      rewrite L1, L2. rewrite !Z.eqb_refl.
+      rewrite (proj2 (Z.leb_le 1 (f_n1 A)) H1), (proj2 (Z.leb_le 1 (f_n2 A)) H2). cbn [andb].
+      rewrite !andb_true_r.
+      apply andb_true_iff. split; [apply andb_true_iff; split; [apply andb_true_iff; split|]|].
+      * apply forallb_forall. intros k Hk. apply g_seqZ_In in Hk.
+        apply andb_true_iff. split; apply Z.leb_le; lia.
+      * apply all2Z_map. intros q Hq. specialize (HQ q Hq).
+        apply andb_true_iff. split; apply Z.leb_le; lia.
+      * apply all2Z_map. intros q Hq. specialize (HQ q Hq).
+        apply andb_true_iff. split; apply Z.leb_le; lia.
+      * apply all2Z_map. intros q Hq. apply Z.leb_le; lia.
+    + change (3 =? 3) with true. cbv iota zeta.
+      cbn [nS nP nL p_lq p_uq p_lec l_lq l_tg l_uq pairs].
+      specialize (L3 eq_refl). specialize (H3 eq_refl). specialize (LR eq_refl).
+      unfold zlen in *. rewrite !map_length, length_denote_rows.
+      rewrite L1, L2, L3. rewrite !Z.eqb_refl.
+      rewrite (proj2 (Z.leb_le 1 (f_n1 A)) H1), (proj2 (Z.leb_le 1 (f_n2 A)) H2),
+              (proj2 (Z.leb_le 1 (f_n3 A)) H3). cbn [andb].
+      rewrite !andb_true_r.
+      apply andb_true_iff. split; [apply andb_true_iff; split; [apply andb_true_iff; split|]|].
+      * apply forallb_forall. intros k Hk. apply in_map_iff in Hk as [q [<- Hq]]. specialize (LR q Hq).
+        apply andb_true_iff. split; apply Z.leb_le; lia.
+      * apply all2Z_map. intros q Hq. specialize (HQ q Hq).
+        apply andb_true_iff. split; apply Z.leb_le; lia.
+      * apply all2Z_map. intros q Hq. specialize (HT q Hq).
+        apply andb_true_iff. split; apply Z.leb_le; lia.
+      * apply all2Z_map. intros q Hq. specialize (HT q Hq). apply Z.leb_le; lia.
+  - intros p Hp. rewrite nth1_pos by lia. unfold denote, lec_of. destruct Hna as [-> | ->].
+    + change (2 =? 3) with false. cbv iota zeta. cbn [p_lec].
+      unfold zlen in L2. rewrite nth_seqZ by lia. lia.
+    + change (3 =? 3) with true. cbv iota zeta. cbn [p_lec].
+      change 0 with (snd ((0, 0, 0) : Z * Z * Z)) at 1. now rewrite map_nth.
+Qed.
+
+(* ====================================================================== *)
+(* D. the generator: its draws, its sections never fail                    *)
+(* ====================================================================== *)
+
+Lemma Forall2_nth_error {X Y} (P : X -> Y -> Prop) : forall (l : list X) (m : list Y),
+  length l = length m ->
+  (forall i x y, nth_error l i = Some x -> nth_error m i = Some y -> P x y) -> Forall2 P l m.
+Proof.
+  induction l as [|x l IH]; intros [|y m] Hlen H; try discriminate; constructor.
+  - apply (H O); reflexivity.
+  - apply IH; [now injection Hlen|]. intros i x' y' Hx Hy. apply (H (S i)); assumption.
+Qed.
+
+Lemma Forall2_combine_In {X Y} (P : X -> Y -> Prop) : forall l m x y,
+  Forall2 P l m -> In (x, y) (combine l m) -> P x y.
+Proof.
+  intros l m x y H. induction H as [|a b l m Hab Hlm IH]; intros Hin; [destruct Hin|].
+  cbn [combine] in Hin. destruct Hin as [E|Hin]; [injection E as <- <-; assumption|now apply IH].
+Qed.
+
+Lemma Forall2_nth {X Y} (P : X -> Y -> Prop) : forall l m i dx dy,
+  Forall2 P l m -> (i < length l)%nat -> P (nth i l dx) (nth i m dy).
+Proof.
+  intros l m i dx dy H. revert i. induction H as [|a b l m Hab Hlm IH]; intros i Hi; [cbn in Hi; lia|].
+  destruct i as [|i]; [exact Hab|]. cbn [nth]. apply IH. cbn [length] in Hi. lia.
+Qed.
+
+Lemma Forall2_length_ {X Y} (P : X -> Y -> Prop) : forall l m, Forall2 P l m -> length l = length m.
+Proof. intros l m H. induction H; cbn [length]; congruence. Qed.
+
+Lemma Forall2_impl_ {X Y} (P Q : X -> Y -> Prop) : (forall x y, P x y -> Q x y) ->
+  forall l m, Forall2 P l m -> Forall2 Q l m.
+Proof. intros H l m F. induction F; constructor; auto. Qed.
+
+Definition first_ok (a : gargs) (l : list Z) (t : list bool) : Prop :=
+  length t = length l /\ nodupZ l = true /\ forall x, In x l -> 1 <= x <= g_n2 a.
+
+Lemma contract_first : forall a d, draws_contract a d -> Forall2 (first_ok a) (d_first d) (d_ties1 d).
+Proof.
+  intros a d (L1 & L2 & H & _). apply Forall2_nth_error; [congruence|].
+  intros i l t Hl Ht. destruct (H i l t Hl Ht) as (A1 & A2 & _ & A4). split; [assumption|split; assumption].
+Qed.
+
+Definition n_second (a : gargs) : Z := if g_mp a =? 4 then g_n3 a else g_n2 a.
+
+Lemma filter_length_le_ {X} : forall (p : X -> bool) l, (length (filter p l) <= length l)%nat.
+Proof. induction l as [|x l IH]; cbn [filter length]; [lia|]. destruct (p x); cbn [length]; lia. Qed.
+
+Lemma invert_rows : forall first n inv, invert first n = Ok inv ->
+  length inv = Z.to_nat n /\ forall k, (length (nth k inv []) <= length first)%nat.
+Proof.
+  intros first n inv H. unfold invert in H. destruct (existsb _ first); [discriminate|]. injection H as <-.
+  split; [now rewrite map_length, length_seqZ|].
+  intro k. destruct (nth_in_or_default k
+     (map (fun j => map fst (filter (fun il : Z * list Z => memZ j (snd il)) (combine (seqZ 1 (length first)) first)))
+          (seqZ 1 (Z.to_nat n))) []) as [Hin|E].
+  - apply in_map_iff in Hin as [j [E _]]. rewrite <- E. rewrite map_length.
+    etransitivity; [apply filter_length_le_|]. rewrite combine_length, length_seqZ. lia.
+  - rewrite E. cbn [length]. lia.
+Qed.
+
+Lemma mapM_nth {X Y} : forall (f : X -> result Y) l ys, mapM f l = Ok ys ->
+  length ys = length l /\ forall i dx dy, (i < length l)%nat -> f (nth i l dx) = Ok (nth i ys dy).
+Proof.
+  induction l as [|x l IH]; intros ys H.
+  - cbn [mapM] in H. injection H as <-. split; [reflexivity|]. intros i dx dy Hi. cbn in Hi. lia.
+  - cbn [mapM] in H. destruct (f x) as [y|] eqn:Fx; [|discriminate]. cbn [bind] in H.
+    destruct (mapM f l) as [ys'|] eqn:M; [|discriminate]. cbn [bind] in H. injection H as <-.
+    destruct (IH ys' eq_refl) as [L N]. split; [cbn [length]; now rewrite L|].
+    intros [|i] dx dy Hi; [exact Fx|]. cbn [nth]. apply N. cbn [length] in Hi. lia.
+Qed.
+
+(* the second side under -twopl *)
+Lemma contract_second : forall a d, gargs_ok a -> draws_contract a d -> g_twopl a = true ->
+  exists inv, second_side_unshuffled a d = Ok inv /\
+    length inv = Z.to_nat (n_second a) /\
+    length (d_second d) = Z.to_nat (n_second a) /\ length (d_ties2 d) = Z.to_nat (n_second a) /\
+    Forall2 (fun l t => length t = length l) (d_second d) (d_ties2 d) /\
+    (forall k, (k < Z.to_nat (n_second a))%nat -> Permutation (nth k inv []) (nth k (d_second d) [])) /\
+    (forall k, (length (nth k (d_second d) []) <= Z.to_nat (g_n1 a))%nat).
+Proof.
+  intros a d G (L1 & L2 & _ & C) Tw. rewrite Tw in C. destruct C as (inv & E & S1 & S2 & HP).
+  exists inv. split; [assumption|].
+  assert (LI : length inv = Z.to_nat (n_second a) /\ forall k, (length (nth k inv []) <= Z.to_nat (g_n1 a))%nat).
+  { unfold second_side_unshuffled in E. unfold n_second. destruct (g_mp a =? 4).
+    - destruct (create_project_lecturers (g_n2 a) (g_n3 a)) as [plec|]; [|discriminate]. cbn [bind] in E.
+      destruct (create_student_lec_lists (d_first d) plec (g_n3 a)) as [sl|] eqn:Esl; [|discriminate].
+      cbn [bind] in E. destruct (invert_rows _ _ _ E) as [A1 A2]. split; [assumption|].
+      unfold create_student_lec_lists in Esl. destruct (mapM_nth _ _ _ Esl) as [A3 _].
+      intro k. specialize (A2 k). lia.
+    - destruct (invert_rows _ _ _ E) as [A1 A2]. split; [assumption|]. intro k. specialize (A2 k). lia. }
+  destruct LI as [LI LR].
+  assert (PK : forall k, (k < Z.to_nat (n_second a))%nat -> Permutation (nth k inv []) (nth k (d_second d) [])).
+  { intros k Hk.
+    destruct (HP k (nth k inv []) (nth k (d_second d) []) (nth k (d_ties2 d) [])) as [P _];
+      try (apply nth_error_nth'; lia). exact P. }
+  split; [assumption|]. split; [congruence|]. split; [congruence|]. split; [|split].
+  - apply Forall2_nth_error; [congruence|]. intros i l t Hl Ht.
+    assert (Hi : (i < length inv)%nat).
+    { rewrite <- S1. apply nth_error_Some. rewrite Hl. discriminate. }
+    destruct (HP i (nth i inv []) l t) as [_ P]; try assumption. apply nth_error_nth'. exact Hi.
+  - exact PK.
+  - intro k. destruct (Nat.lt_ge_cases k (Z.to_nat (n_second a))) as [Hk|Hk].
+    + rewrite <- (Permutation_length (PK k Hk)). apply LR.
+    + rewrite nth_overflow by lia. cbn [length]. lia.
+Qed.
+
+Lemma n_second_pos : forall a, gargs_ok a -> 1 <= n_second a.
+Proof.
+  intros a (_ & H2 & H3 & _). unfold n_second. destruct (Z.eqb_spec (g_mp a) 4) as [E|_]; [now apply H3|assumption].
+Qed.
+
+Lemma two_flag : forall a d, gargs_ok a -> draws_contract a d ->
+  negb (Nat.eqb (length (d_second d)) 0) = g_twopl a.
+Proof.
+  intros a d G C. destruct (g_twopl a) eqn:Tw.
+  - destruct (contract_second a d G C Tw) as (inv & _ & _ & L & _). pose proof (n_second_pos a G).
+    destruct (length (d_second d)); [lia|reflexivity].
+  - destruct C as (_ & _ & _ & C). rewrite Tw in C. destruct C as [-> _]. reflexivity.
+Qed.
+
+(* totality of the sections *)
+Lemma first_lines_total : forall ls ts i n, Forall2 (fun l t => length t = length l) ls ts -> length ls = n ->
+  exists s, first_lines i ls ts n = Ok s.
+Proof.
+  intros ls ts i n H. revert i n. induction H as [|l t ls ts Hlt Hls IH]; intros i n Hn.
+  - subst n. exists ""%string. reflexivity.
+  - cbn [length] in Hn. subst n. cbn [first_lines].
+    destruct (pref_string_total l t Hlt) as [p ->]. cbn [bind].
+    destruct (IH (i + 1) (length ls) eq_refl) as [s ->]. cbn [bind]. eexists. reflexivity.
+Qed.
+
+Lemma hosp_lines_total2 : forall ls ts, Forall2 (fun l t => length t = length l) ls ts ->
+  forall i lq uq n, length ls = n -> length lq = n -> length uq = n ->
+  exists s, hosp_lines i true ls ts lq uq n = Ok s.
+Proof.
+  intros ls ts H. induction H as [|l t ls ts Hlt Hls IH]; intros i lq uq n Hn Hq Hu.
+  - cbn [length] in Hn. subst n. destruct lq; [|discriminate]. exists ""%string. reflexivity.
+  - cbn [length] in Hn. subst n. destruct lq as [|x lq]; [discriminate|]. destruct uq as [|y uq]; [discriminate|].
+    cbn [length] in Hq, Hu. cbn [hosp_lines tl].
+    destruct (pref_string_total l t Hlt) as [p ->]. cbn [bind].
+    destruct (IH (i + 1) lq uq (length ls) eq_refl) as [s ->]; [lia|lia|]. cbn [bind]. eexists. reflexivity.
+Qed.
+
+Lemma hosp_lines_total1 : forall n i ls ts lq uq, length lq = n -> length uq = n ->
+  exists s, hosp_lines i false ls ts lq uq n = Ok s.
+Proof.
+  induction n as [|n IH]; intros i ls ts lq uq Hq Hu.
+  - destruct lq; [|discriminate]. exists ""%string. reflexivity.
+  - destruct lq as [|x lq]; [discriminate|]. destruct uq as [|y uq]; [discriminate|].
+    cbn [length] in Hq, Hu. cbn [hosp_lines bind].
+    destruct (IH (i + 1) (tl ls) (tl ts) lq uq) as [s ->]; [lia|lia|]. cbn [bind]. eexists. reflexivity.
+Qed.
+
+Lemma proj_lines_total : forall n i lq uq plec, length lq = n -> length uq = n -> length plec = n ->
+  exists s, proj_lines i lq uq plec n = Ok s.
+Proof.
+  induction n as [|n IH]; intros i lq uq plec Hq Hu Hp.
+  - destruct lq; [|discriminate]. exists ""%string. reflexivity.
+  - destruct lq as [|x lq]; [discriminate|]. destruct uq as [|y uq]; [discriminate|].
+    destruct plec as [|z plec]; [discriminate|].
+    cbn [length] in Hq, Hu, Hp. cbn [proj_lines].
+    destruct (IH (i + 1) lq uq plec) as [s ->]; [lia|lia|lia|]. cbn [bind]. eexists. reflexivity.
+Qed.
+
+Lemma lec_lines_total2 : forall ls ts, Forall2 (fun l t => length t = length l) ls ts ->
+  forall i lq tg uq n, length ls = n -> length lq = n -> length tg = n -> length uq = n ->
+  exists s, lec_lines i true ls ts lq tg uq n = Ok s.
+Proof.
+  intros ls ts H. induction H as [|l t ls ts Hlt Hls IH]; intros i lq tg uq n Hn Hq Hg Hu.
+  - cbn [length] in Hn. subst n. destruct lq; [|discriminate]. exists ""%string. reflexivity.
+  - cbn [length] in Hn. subst n. destruct lq as [|x lq]; [discriminate|]. destruct tg as [|z tg]; [discriminate|].
+    destruct uq as [|y uq]; [discriminate|].
+    cbn [length] in Hq, Hu, Hg. cbn [lec_lines tl].
+    destruct (pref_string_total l t Hlt) as [p ->]. cbn [bind].
+    destruct (IH (i + 1) lq tg uq (length ls) eq_refl) as [s ->]; [lia|lia|lia|]. cbn [bind]. eexists. reflexivity.
+Qed.
+
+Lemma lec_lines_total1 : forall n i ls ts lq tg uq, length lq = n -> length tg = n -> length uq = n ->
+  exists s, lec_lines i false ls ts lq tg uq n = Ok s.
+Proof.
+  induction n as [|n IH]; intros i ls ts lq tg uq Hq Hg Hu.
+  - destruct lq; [|discriminate]. exists ""%string. reflexivity.
+  - destruct lq as [|x lq]; [discriminate|]. destruct tg as [|z tg]; [discriminate|].
+    destruct uq as [|y uq]; [discriminate|].
+    cbn [length] in Hq, Hu, Hg. cbn [lec_lines bind].
+    destruct (IH (i + 1) (tl ls) (tl ts) lq tg uq) as [s ->]; [lia|lia|lia|]. cbn [bind]. eexists. reflexivity.
+Qed.
+
+Lemma quotas_len : forall n q l, 0 < n -> create_quotas n q = Ok l -> length l = Z.to_nat n.
+Proof.
+  intros n q l Hn H. rewrite create_quotas_eq in H by lia. injection H as <-.
+  now rewrite map_length, g_seqZ_length.
+Qed.
+
+Lemma plec_total : forall n2 n3, 0 < n3 -> 0 <= n2 ->
+  exists l, create_project_lecturers n2 n3 = Ok l /\ length l = Z.to_nat n2 /\ forall x, In x l -> 1 <= x <= n3.
+Proof.
+  intros n2 n3 H3 H2. destruct (quotas_total n3 n2 H3) as [c Ec].
+  assert (E : create_project_lecturers n2 n3 =
+              Ok (concat (map (fun kc => repeat (fst kc + 1) (Z.to_nat (snd kc))) (combine (rangeZ n3) c)))).
+  { unfold create_project_lecturers. rewrite Ec. reflexivity. }
+  eexists. split; [exact E|]. destruct (project_lecturers_spec _ _ _ H3 H2 E) as (A1 & A2 & _). now split.
+Qed.
+
+Theorem generated_file_exists : forall a d, gargs_ok a -> draws_contract a d -> exists text, instance_text a d = Ok text.
+Proof.
+  intros a d G C. pose proof (two_flag a d G C) as TF. pose proof (contract_first a d C) as F1.
+  assert (F1' : Forall2 (fun l t => length t = length l) (d_first d) (d_ties1 d)).
+  { eapply Forall2_impl_; [|exact F1]. intros l t H. exact (proj1 H). }
+  pose proof C as (L1 & _).
+  destruct G as (G1 & G2 & G3 & G4 & G5 & G6 & G7 & G8 & G9).
+  assert (G : gargs_ok a) by (repeat split; assumption || lia).
+  unfold instance_text. destruct (Z.eqb_spec (g_mp a) 4) as [E4|N4].
+  - specialize (G3 E4). destruct (G8 E4) as (G81 & G82 & G83).
+    unfold spa_instance.
+    destruct (plec_total (g_n2 a) (g_n3 a)) as (plec & -> & Lp & _); [lia|lia|]. cbn [bind].
+    destruct (quotas_total (g_n2 a) (g_lq a)) as [lqs Elq]; [lia|]. rewrite Elq. cbn [bind].
+    destruct (quotas_total (g_n2 a) (g_uq a)) as [uqs Euq]; [lia|]. rewrite Euq. cbn [bind].
+    destruct (quotas_total (g_n3 a) (g_llq a)) as [llqs Ellq]; [lia|]. rewrite Ellq. cbn [bind].
+    destruct (quotas_total (g_n3 a) (g_lt a)) as [ltgs Eltg]; [lia|]. rewrite Eltg. cbn [bind].
+    destruct (quotas_total (g_n3 a) (g_luq a)) as [luqs Eluq]; [lia|]. rewrite Eluq. cbn [bind].
+    destruct (first_lines_total _ _ 1 _ F1' L1) as [fl ->]. cbn [bind].
+    destruct (proj_lines_total (Z.to_nat (g_n2 a)) 1 lqs uqs plec) as [pl ->];
+      [eapply quotas_len; [|eassumption]; lia|eapply quotas_len; [|eassumption]; lia|assumption|].
+    cbn [bind]. rewrite TF.
+    assert (Q1 : length llqs = Z.to_nat (g_n3 a)) by (eapply quotas_len; [|eassumption]; lia).
+    assert (Q2 : length ltgs = Z.to_nat (g_n3 a)) by (eapply quotas_len; [|eassumption]; lia).
+    assert (Q3 : length luqs = Z.to_nat (g_n3 a)) by (eapply quotas_len; [|eassumption]; lia).
+    destruct (g_twopl a) eqn:Tw.
+    + destruct (contract_second a d G C Tw) as (inv & _ & _ & S1 & S2 & S3 & _).
+      unfold n_second in S1, S2. rewrite (proj2 (Z.eqb_eq _ _) E4) in S1, S2.
+      destruct (lec_lines_total2 _ _ S3 1 llqs ltgs luqs _ S1 Q1 Q2 Q3) as [ll ->]. cbn [bind].
+      eexists. reflexivity.
+    + destruct (lec_lines_total1 _ 1 (d_second d) (d_ties2 d) llqs ltgs luqs Q1 Q2 Q3) as [ll ->]. cbn [bind].
+      eexists. reflexivity.
+  - unfold hr_instance.
+    destruct (quotas_total (g_n2 a) (g_lq a)) as [lqs Elq]; [lia|]. rewrite Elq. cbn [bind].
+    destruct (quotas_total (g_n2 a) (g_uq a)) as [uqs Euq]; [lia|]. rewrite Euq. cbn [bind].
+    destruct (first_lines_total _ _ 1 _ F1' L1) as [fl ->]. cbn [bind]. rewrite TF.
+    assert (Q1 : length lqs = Z.to_nat (g_n2 a)) by (eapply quotas_len; [|eassumption]; lia).
+    assert (Q2 : length uqs = Z.to_nat (g_n2 a)) by (eapply quotas_len; [|eassumption]; lia).
+    destruct (g_twopl a) eqn:Tw.
+    + destruct (contract_second a d G C Tw) as (inv & _ & _ & S1 & S2 & S3 & _).
+      unfold n_second in S1, S2. rewrite (proj2 (Z.eqb_neq _ _) N4) in S1, S2.
+      destruct (hosp_lines_total2 _ _ S3 1 lqs uqs _ S1 Q1 Q2) as [hl ->]. cbn [bind].
+      eexists. reflexivity.
+    + destruct (hosp_lines_total1 _ 1 (d_second d) (d_ties2 d) lqs uqs Q1 Q2) as [hl ->]. cbn [bind].
+      eexists. reflexivity.
+Qed.
+
+(* ====================================================================== *)
+(* E. the abstract file of a generated instance                            *)
+(* ====================================================================== *)
+
+Definition sec_lists (a : gargs) (d : draws) (n : nat) : list plist :=
+  if g_twopl a then zipruns (d_second d) (d_ties2 d) else repeat [] n.
+
+Definition hr_ast (a : gargs) (d : draws) (lqs uqs : list Z) : file_ast :=
+  mkAst (g_n1 a) (g_n2 a) 0 (zipruns (d_first d) (d_ties1 d))
+        (combine (combine lqs uqs) (repeat 0 (Z.to_nat (g_n2 a))))
+        (sec_lists a d (Z.to_nat (g_n2 a))) [].
+
+Definition spa_ast (a : gargs) (d : draws) (lqs uqs plec llqs ltgs luqs : list Z) : file_ast :=
+  mkAst (g_n1 a) (g_n2 a) (g_n3 a) (zipruns (d_first d) (d_ties1 d))
+        (combine (combine lqs uqs) plec) []
+        (combine (combine (combine llqs ltgs) luqs) (sec_lists a d (Z.to_nat (g_n3 a)))).
+
+(* ---- list helpers ------------------------------------------------------- *)
+
+Lemma In_combine_nth {X Y} : forall (l : list X) (m : list Y) x y dx dy,
+  length l = length m -> In (x, y) (combine l m) ->
+  exists i, (i < length l)%nat /\ x = nth i l dx /\ y = nth i m dy.
+Proof.
+  intros l m x y dx dy Hlen H. apply (In_nth _ _ (dx, dy)) in H as [i [Hi E]].
+  rewrite combine_length, <- Hlen, Nat.min_id in Hi. rewrite combine_nth in E by assumption.
+  injection E as <- <-. now exists i.
+Qed.
+
+Lemma length_zipruns : forall ls ts, length ls = length ts -> length (zipruns ls ts) = length ls.
+Proof. intros ls ts H. unfold zipruns. rewrite map_length, combine_length. lia. Qed.
+
+Lemma nth_zipruns : forall ls ts i, length ls = length ts ->
+  nth i (zipruns ls ts) [] = runs (nth i ls []) (nth i ts []).
+Proof.
+  intros ls ts i H. unfold zipruns.
+  change (@nil (list Z)) with ((fun lt : list Z * list bool => runs (fst lt) (snd lt)) ([], [])) at 1.
+  rewrite map_nth. rewrite combine_nth by assumption. reflexivity.
+Qed.
+
+Lemma in_zipruns : forall ls ts pl, In pl (zipruns ls ts) ->
+  exists l t, In (l, t) (combine ls ts) /\ pl = runs l t.
+Proof.
+  intros ls ts pl H. unfold zipruns in H. apply in_map_iff in H as [[l t] [<- Hin]]. now exists l, t.
+Qed.
+
+Lemma in_combine_seqZ {X} : forall (l : list X) a j x d,
+  In (j, x) (combine (seqZ a (length l)) l) -> exists i, (i < length l)%nat /\ j = a + Z.of_nat i /\ x = nth i l d.
+Proof.
+  intros l a j x d H. apply (In_combine_nth _ _ _ _ 0 d) in H; [|apply length_seqZ].
+  destruct H as (i & Hi & E1 & E2). rewrite length_seqZ in Hi. rewrite nth_seqZ in E1 by assumption.
+  now exists i.
+Qed.
+
+Lemma nth_repeat_nil {X} : forall n i, nth i (repeat (@nil X) n) [] = [].
+Proof.
+  intros n i. destruct (nth_in_or_default i (repeat (@nil X) n) []) as [H|H]; [|assumption].
+  now apply repeat_spec in H.
+Qed.
+
+Lemma runs_plist_ok : forall l ties, plist_ok (runs l ties).
+Proof.
+  induction l as [|x l IH]; intros ties; [constructor|].
+  destruct l as [|y l'].
+  - destruct ties; (constructor; [discriminate|constructor]).
+  - remember (y :: l') as l eqn:El.
+    assert (E : runs (x :: l) ties =
+      match ties with
+      | t :: ties' => if t then match runs l ties' with g' :: gs => (x :: g') :: gs | [] => [[x]] end
+                      else [x] :: runs l ties'
+      | [] => [x] :: runs l []
+      end).
+    { subst l. destruct ties; reflexivity. }
+    rewrite E. destruct ties as [|t ties'].
+    + constructor; [discriminate|apply IH].
+    + destruct t.
+      * specialize (IH ties'). destruct (runs l ties') as [|g' gs].
+        -- constructor; [discriminate|constructor].
+        -- inversion IH; subst. constructor; [discriminate|assumption].
+      * constructor; [discriminate|apply IH].
+Qed.
+
+Lemma count_pos_In : forall l x, count_occZ l x = 1 -> In x l.
+Proof.
+  intros l x H. destruct (in_dec Z.eq_dec x l) as [Hin|Hn]; [assumption|].
+  rewrite g_count_occZ_notin in H by assumption. discriminate.
+Qed.
+
+Lemma invert_In : forall first n inv i p, 0 <= n ->
+  (forall l, In l first -> nodupZ l = true) -> invert first n = Ok inv ->
+  (i < length first)%nat -> 1 <= p <= n -> In p (nth i first []) ->
+  In (1 + Z.of_nat i) (nth (Z.to_nat (p - 1)) inv []).
+Proof.
+  intros first n inv i p Hn Hnd H Hi Hp Hin.
+  destruct (invert_spec first n inv Hn Hnd H) as [_ S]. apply count_pos_In. rewrite (S p _ Hp).
+  replace (Z.to_nat (1 + Z.of_nat i - 1)) with i by lia.
+  rewrite (proj2 (g_memZ_In p _) Hin).
+  rewrite (proj2 (Z.leb_le 1 (1 + Z.of_nat i))) by lia.
+  rewrite (proj2 (Z.leb_le (1 + Z.of_nat i) (zlen first))) by (unfold zlen; lia). reflexivity.
+Qed.
+
+(* ---- converse of wf_ast_facts -------------------------------------------- *)
+
+Lemma plist_ok_forallb : forall ls, Forall plist_ok ls ->
+  forallb (fun l : plist => forallb (fun g => negb (Nat.eqb (length g) 0)) l) ls = true.
+Proof.
+  intros ls H. apply forallb_forall. intros l Hl. rewrite Forall_forall in H. specialize (H l Hl).
+  apply forallb_forall. intros g Hg. unfold plist_ok in H. rewrite Forall_forall in H. specialize (H g Hg).
+  destruct g; [now elim H|reflexivity].
+Qed.
+
+Lemma Tw_intro : forall na A,
+  (forall j l, In (j, l) (combine (seqZ 1 (length (f_first A))) (f_first A)) ->
+     forall p, In p (concat l) -> In j (concat (second_list_of na A (lec_of na A p)))) ->
+  forall il, In il (combine (seqZ 1 (length (f_first A))) (f_first A)) -> Tw na A (fst il) (snd il).
+Proof.
+  intros na A H [j l] Hil g p Hg Hp. cbn [fst snd] in *. apply lec_rank_in. apply (H j l Hil).
+  apply in_concat. exists g. now split.
+Qed.
+
+Lemma wf_ast_intro : forall na tw A,
+  (na = 2 \/ na = 3) -> zlen (f_first A) = f_n1 A -> zlen (f_second A) = f_n2 A ->
+  (na = 3 -> zlen (f_third A) = f_n3 A) -> (na = 2 -> zlen (f_second_lists A) = f_n2 A) ->
+  0 <= f_n1 A -> 0 <= f_n2 A -> 0 <= f_n3 A ->
+  Forall plist_ok (f_first A ++ f_second_lists A ++ map snd (f_third A)) ->
+  Forall (Rng A) (f_first A) ->
+  (na = 3 -> forall q, In q (f_second A) -> 1 <= snd q <= f_n3 A) ->
+  (tw = true -> forall il, In il (combine (seqZ 1 (length (f_first A))) (f_first A)) -> Tw na A (fst il) (snd il)) ->
+  wf_ast na tw A = true.
+Proof.
+  intros na tw A Hna L1 L2 L3 L4 N1 N2 N3 O R LR T. unfold wf_ast.
+  repeat (apply andb_true_iff; split).
+  - destruct Hna as [-> | ->]; reflexivity.
+  - now apply Z.eqb_eq.
+  - now apply Z.eqb_eq.
+  - destruct Hna as [-> | ->].
+    + change (2 =? 3) with false. cbv iota. apply Z.eqb_eq. now apply L4.
+    + change (3 =? 3) with true. cbv iota. apply Z.eqb_eq. now apply L3.
+  - now apply Z.leb_le.
+  - now apply Z.leb_le.
+  - now apply Z.leb_le.
+  - now apply plist_ok_forallb.
+  - apply forallb_forall. intros l Hl. apply forallb_forall. intros g Hg. apply forallb_forall. intros p Hp.
+    rewrite Forall_forall in R. pose proof (R l Hl g p Hg Hp).
+    apply andb_true_iff. split; apply Z.leb_le; lia.
+  - destruct Hna as [-> | ->].
+    + reflexivity.
+    + change (3 =? 3) with true. cbv iota. apply forallb_forall. intros q Hq.
+      pose proof (LR eq_refl q Hq). apply andb_true_iff. split; apply Z.leb_le; lia.
+  - destruct tw; [|reflexivity]. cbn [negb orb].
+    apply forallb_forall. intros il Hil. apply forallb_forall. intros g Hg. apply forallb_forall. intros p Hp.
+    pose proof (T eq_refl il Hil g p Hg Hp) as N. cbv beta.
+    destruct (lec_rank na A (lec_of na A p) (fst il)) eqn:E; [reflexivity|].
+    exfalso. apply N. first [exact E | reflexivity].
+Qed.
+
+(* ---- facts shared by both generators -------------------------------------- *)
+
+Lemma first_side_facts : forall a d, gargs_ok a -> draws_contract a d ->
+  let F := zipruns (d_first d) (d_ties1 d) in
+  zlen F = g_n1 a /\ Forall plist_ok F /\
+  (forall l g p, In l F -> In g l -> In p g -> 1 <= p <= g_n2 a) /\
+  (forall l, In l F -> nodupZ (concat l) = true) /\
+  (forall j l, In (j, l) (combine (seqZ 1 (length F)) F) ->
+     exists i, (i < Z.to_nat (g_n1 a))%nat /\ j = 1 + Z.of_nat i /\ concat l = nth i (d_first d) []).
+Proof.
+  intros a d G C F. pose proof (contract_first a d C) as F1. pose proof C as (L1 & L2 & _).
+  destruct G as (G1 & _).
+  assert (LF : length F = Z.to_nat (g_n1 a)) by (unfold F; rewrite length_zipruns; congruence).
+  split; [unfold zlen; rewrite LF; lia|]. split; [|split; [|split]].
+  - apply Forall_forall. intros l Hl. apply in_zipruns in Hl as (fl & ft & _ & ->). apply runs_plist_ok.
+  - intros l g p Hl Hg Hp. apply in_zipruns in Hl as (fl & ft & Hin & ->).
+    destruct (Forall2_combine_In _ _ _ _ _ F1 Hin) as (_ & _ & Rg). apply Rg.
+    rewrite <- (concat_runs fl ft). apply in_concat. exists g. now split.
+  - intros l Hl. apply in_zipruns in Hl as (fl & ft & Hin & ->).
+    destruct (Forall2_combine_In _ _ _ _ _ F1 Hin) as (_ & Nd & _). now rewrite concat_runs.
+  - intros j l Hin. apply (in_combine_seqZ _ _ _ _ []) in Hin as (i & Hi & -> & ->).
+    exists i. split; [rewrite <- LF; exact Hi|]. split; [reflexivity|]. unfold F. rewrite nth_zipruns by congruence.
+    apply concat_runs.
+Qed.
+
+Lemma sec_lists_facts : forall a d n, gargs_ok a -> draws_contract a d -> n = Z.to_nat (n_second a) ->
+  length (sec_lists a d n) = n /\ Forall plist_ok (sec_lists a d n) /\
+  (forall k, zlen (concat (nth k (sec_lists a d n) [])) <= g_n1 a) /\
+  (g_twopl a = true -> forall k, concat (nth k (sec_lists a d n) []) = nth k (d_second d) []).
+Proof.
+  intros a d n G C ->. pose proof G as (G1 & _). unfold sec_lists. destruct (g_twopl a) eqn:Tw.
+  - destruct (contract_second a d G C Tw) as (inv & _ & _ & S1 & S2 & S3 & _ & S5).
+    assert (CC : forall k, concat (nth k (zipruns (d_second d) (d_ties2 d)) []) = nth k (d_second d) []).
+    { intro k. rewrite nth_zipruns by congruence. apply concat_runs. }
+    split; [rewrite length_zipruns; congruence|]. split; [|split].
+    + apply Forall_forall. intros l Hl. apply in_zipruns in Hl as (fl & ft & _ & ->). apply runs_plist_ok.
+    + intro k. rewrite CC. specialize (S5 k). unfold zlen. lia.
+    + intros _ k. apply CC.
+  - split; [apply repeat_length|]. split; [|split].
+    + apply Forall_forall. intros l Hl. apply repeat_spec in Hl. subst l. constructor.
+    + intro k. unfold plist. rewrite nth_repeat_nil. cbn. lia.
+    + discriminate.
+Qed.
+
+Lemma quota_pair : forall n q1 q2 l1 l2 i, 0 < n -> 0 <= q1 <= q2 ->
+  create_quotas n q1 = Ok l1 -> create_quotas n q2 = Ok l2 -> (i < Z.to_nat n)%nat ->
+  0 <= nth i l1 0 <= nth i l2 0.
+Proof.
+  intros n q1 q2 l1 l2 i Hn Hq E1 E2 Hi. split.
+  - apply (quotas_nonneg n q1 l1); [assumption|lia|assumption|].
+    apply nth_In. rewrite (quotas_len n q1 l1 Hn E1). exact Hi.
+  - now apply (quotas_monotone n q1 q2 l1 l2).
+Qed.
+
+Lemma first_ok_In : forall a ls ts, Forall2 (first_ok a) ls ts ->
+  forall l, In l ls -> nodupZ l = true /\ forall x, In x l -> 1 <= x <= g_n2 a.
+Proof.
+  intros a ls ts H. induction H as [|l t ls ts Hlt Hls IH]; intros l' Hin; [destruct Hin|].
+  destruct Hin as [<-|Hin]; [|now apply IH]. destruct Hlt as (_ & A1 & A2). now split.
+Qed.
+
+(* ====================================================================== *)
+(* F. ha / sm / hr                                                          *)
+(* ====================================================================== *)
+
+Lemma hr_ast_wf : forall a d lqs uqs, gargs_ok a -> draws_contract a d -> g_mp a <> 4 ->
+  create_quotas (g_n2 a) (g_lq a) = Ok lqs -> create_quotas (g_n2 a) (g_uq a) = Ok uqs ->
+  wf_ast 2 (g_twopl a) (hr_ast a d lqs uqs) = true /\
+  wf (denote 2 (g_twopl a) (hr_ast a d lqs uqs)) = true.
+Proof.
+  intros a d lqs uqs G C N4 Elq Euq.
+  pose proof G as (G1 & G2 & G3 & G4 & G5 & G6 & G7 & G8 & G9).
+  assert (NS : n_second a = g_n2 a) by (unfold n_second; now rewrite (proj2 (Z.eqb_neq _ _) N4)).
+  destruct (first_side_facts a d G C) as (ZF & OF & RF & NF & IF).
+  destruct (sec_lists_facts a d (Z.to_nat (g_n2 a)) G C) as (LS & OS & CS & DS); [now rewrite NS|].
+  pose proof (contract_first a d C) as F1.
+  assert (Q1 : length lqs = Z.to_nat (g_n2 a)) by (eapply quotas_len; [|eassumption]; lia).
+  assert (Q2 : length uqs = Z.to_nat (g_n2 a)) by (eapply quotas_len; [|eassumption]; lia).
+  set (A := hr_ast a d lqs uqs).
+  assert (SL : forall k, second_list_of 2 A k = nth (Z.to_nat (k - 1)) (sec_lists a d (Z.to_nat (g_n2 a))) [])
+    by reflexivity.
+  assert (W : wf_ast 2 (g_twopl a) A = true).
+  { apply wf_ast_intro.
+    - now left.
+    - exact ZF.
+    - unfold zlen, A, hr_ast. cbn [f_second f_n2]. rewrite !combine_length, repeat_length, Q1, Q2. lia.
+    - discriminate.
+    - intros _. unfold zlen, A, hr_ast. cbn [f_second_lists f_n2]. rewrite LS. lia.
+    - unfold A, hr_ast. cbn [f_n1]. lia.
+    - unfold A, hr_ast. cbn [f_n2]. lia.
+    - unfold A, hr_ast. cbn [f_n3]. lia.
+    - unfold A, hr_ast. cbn [f_first f_second_lists f_third map]. rewrite app_nil_r.
+      apply Forall_app_intro; assumption.
+    - apply Forall_forall. intros l Hl g p Hg Hp. exact (RF l g p Hl Hg Hp).
+    - discriminate.
+    - intros Tw. apply Tw_intro. intros j l Hin p Hp.
+      destruct (IF j l Hin) as (i & Hi & -> & EC). rewrite EC in Hp.
+      change (lec_of 2 A p) with p. rewrite SL, (DS Tw).
+      destruct (contract_second a d G C Tw) as (inv & E & LI & _ & _ & _ & PK & _).
+      unfold second_side_unshuffled in E. rewrite (proj2 (Z.eqb_neq _ _) N4) in E.
+      assert (Hi' : (i < length (d_first d))%nat) by (destruct C as (L1 & _); lia).
+      destruct (first_ok_In a _ _ F1 (nth i (d_first d) []) (nth_In _ _ Hi')) as [_ Rg].
+      pose proof (Rg p Hp) as Hr.
+      apply (Permutation_in _ (PK (Z.to_nat (p - 1)) ltac:(rewrite NS; lia))).
+      apply (invert_In (d_first d) (g_n2 a)); try assumption; [lia|].
+      intros l' Hl'. exact (proj1 (first_ok_In a _ _ F1 l' Hl')). }
+  split; [exact W|].
+  apply denote_wf; try assumption.
+  - discriminate.
+  - intros [[x y] z] Hq. cbn [fst snd]. unfold A, hr_ast in Hq. cbn [f_second] in Hq.
+    apply in_combine_l in Hq. apply (In_combine_nth _ _ _ _ 0 0) in Hq as (i & Hi & -> & ->); [|congruence].
+    apply (quota_pair (g_n2 a) (g_lq a) (g_uq a)); try assumption; lia.
+  - intros q [].
+  - intro k. rewrite SL. apply CS.
+Qed.
+
+Lemma hr_imports : forall a d text, gargs_ok a -> draws_contract a d -> g_mp a <> 4 ->
+  hr_instance a d = Ok text ->
+  exists lqs uqs, create_quotas (g_n2 a) (g_lq a) = Ok lqs /\ create_quotas (g_n2 a) (g_uq a) = Ok uqs /\
+    import_model text 2 (g_twopl a) = Ok (denote 2 (g_twopl a) (hr_ast a d lqs uqs)).
+Proof.
+  intros a d text G C N4 H.
+  pose proof G as (G1 & G2 & _).
+  assert (NS : n_second a = g_n2 a) by (unfold n_second; now rewrite (proj2 (Z.eqb_neq _ _) N4)).
+  unfold hr_instance in H.
+  destruct (create_quotas (g_n2 a) (g_lq a)) as [lqs|] eqn:Elq; [|discriminate]. cbn [bind] in H.
+  destruct (create_quotas (g_n2 a) (g_uq a)) as [uqs|] eqn:Euq; [|discriminate]. cbn [bind] in H.
+  destruct (first_lines 1 (d_first d) (d_ties1 d) (Z.to_nat (g_n1 a))) as [fl|] eqn:Efl; [|discriminate].
+  cbn [bind] in H. rewrite (two_flag a d G C) in H.
+  destruct (hosp_lines 1 (g_twopl a) (d_second d) (d_ties2 d) lqs uqs (Z.to_nat (g_n2 a))) as [hl|] eqn:Ehl;
+    [|discriminate].
+  cbn [bind] in H. injection H as <-.
+  exists lqs, uqs. split; [reflexivity|]. split; [reflexivity|].
+  destruct (hr_ast_wf a d lqs uqs G C N4 Elq Euq) as [W _].
+  assert (Q1 : length lqs = Z.to_nat (g_n2 a)) by (eapply quotas_len; [|eassumption]; lia).
+  assert (Q2 : length uqs = Z.to_nat (g_n2 a)) by (eapply quotas_len; [|eassumption]; lia).
+  pose proof C as (L1 & L2 & _).
+  match goal with |- import_model ?t _ _ = _ =>
+    replace t
+    with (join SP [str_of_Z (g_n1 a); str_of_Z (g_n2 a)] +++ NLs +++ (fl +++ hl) +++ (NLs +++ info_hr a))
+    by (cbn [join]; unfold sZ; rewrite !append_assoc; reflexivity) end.
+  apply (text_import 2 (g_twopl a) (hr_ast a d lqs uqs) _
+           (numbered student_toks 1 (zipruns (d_first d) (d_ties1 d)) ++
+            numbered hospital_toks 1 (combine (combine (combine lqs uqs) (repeat 0 (Z.to_nat (g_n2 a))))
+                                              (sec_lists a d (Z.to_nat (g_n2 a)))))).
+  - exact W.
+  - reflexivity.
+  - apply gen_ok_app.
+    + now apply (first_lines_gen (Z.to_nat (g_n1 a))).
+    + unfold sec_lists. destruct (g_twopl a) eqn:Tw.
+      * destruct (contract_second a d G C Tw) as (inv & _ & _ & S1 & S2 & _). rewrite NS in S1, S2.
+        apply (hosp_lines_gen2 (Z.to_nat (g_n2 a))); try assumption. apply repeat_length.
+      * apply (hosp_lines_gen1 (Z.to_nat (g_n2 a)) 1 (d_second d) (d_ties2 d)); try assumption.
+        apply repeat_length.
 Qed.
